@@ -224,7 +224,41 @@ def check_protocol(fx, R, cq, dim):
     if got0 == want0 and sized and vecname == 'ray':
         R.holds('Y3', cname + '::cast()', 'N entries, entry 0 = origin cell, one next() per further entry', fx.rel(c0['loc']), 'E-STATE')
     else:
-        R.undecided('Y3', cname + '::cast()', 'cast loop idiom not recognised: %s' % (got0,))
+        # a cast loop that stops on a comparison of the smallest crossing parameter with the ray length: decided on two axis-aligned witness rays in
+        # exact arithmetic, using the initialisation formulas rule Y5 establishes (tMax = (next border - origin) / direction, tDelta = res / |direction|,
+        # each next() adds tDelta to the smallest tMax) and the range = |end - origin| stored by setEndPoint
+        wl = [s_ for s_ in s0 if s_[0] == 'while' and isinstance(s_[1], tuple) and len(s_[1]) == 3 and s_[1][0] in ('<', '<=') and s_[1][1] == ('.minCoeff', 'this.rayTMax_') and isinstance(s_[1][2], str)]
+        rng_field = wl[0][1][2] if len(wl) == 1 else None
+        sse = stmts_sx(fse)
+        stored_norm = rng_field is not None and any(s_[0] == 'expr' and isinstance(s_[1], tuple) and s_[1][0] == '=' and s_[1][1] == rng_field and isinstance(s_[1][2], tuple) and s_[1][2][0] == '.norm' for s_ in sse)
+        pushes = [s_ for s_ in s0 if s_[0] == 'expr' and isinstance(s_[1], tuple) and s_[1][0] in ('.push_back', '.emplace_back')]
+        nexts = [s_ for s_ in s0 if s_[0] == 'expr' and isinstance(s_[1], tuple) and s_[1][0] == '.next']
+        if len(wl) == 1 and stored_norm and len(pushes) == 2 and len(nexts) == 1:
+            from fractions import Fraction as Fr
+            import math
+            op = wl[0][1][0]
+            res = Fr(1, 2)
+            bad = None
+            for end in (Fr(5, 4), Fr(-5, 4), Fr(1), Fr(-1)):
+                # origin at 0 = centre of cell 0 (cells are [k res - res/2, k res + res/2)); ray along the axis
+                idx = math.floor((end + res / 2) / res)
+                want = abs(idx) + 1
+                rng = abs(end)
+                t, n_entries = res / 2, 1
+                while (t < rng if op == '<' else t <= rng) and n_entries < 50:
+                    n_entries += 1
+                    t += res
+                if n_entries != want:
+                    bad = bad or (end, n_entries, want, idx)
+            if bad:
+                R.violated('Y3', cname.split('<')[0] + '::cast():parametric-stop', 'cast() stops when `%s`: for the axis-aligned ray from a cell centre (0) to %s at resolution 1/2 - an end point exactly on a cell border, '
+                           'which the quantifier names - the crossing parameters are 1/4, 3/4, 5/4, ... and the range is %s, so the loop emits %d cells; the end point lies in cell %d, so |end - origin|_1 + 1 = %d '
+                           'cells are required and the ray must end in the end point\'s own cell' % (pp(next(x for x in walk(c0['body']) if x.get('k') == 'While')['c']), bad[0], abs(bad[0]), bad[1], bad[3], bad[2]),
+                           fx.rel(c0['loc']), 'E-STEP')
+            else:
+                R.undecided('Y3', cname + '::cast()', 'cast loop stops on a comparison of crossing parameters; it gives the right count on the border witnesses, the general case is a floating-point statement')
+        else:
+            R.undecided('Y3', cname + '::cast()', 'cast loop idiom not recognised: %s' % (got0,))
     # ---- Y4 ordering ---------------------------------------------------------
     check_dominates(fx, R, cname + '::cast(end)', c1, [('.setEndPoint', 'this', 'endPoint')], ('.cast', 'this'),
                     'setEndPoint(endPoint)', 'next() advances rayTMax_ during every cast, so the crossing parameters of the previous ray are stale')
